@@ -355,7 +355,7 @@ func runSim(t *testing.T, c Case, sched Sched) (res simResult) {
 			// still working through a long operation log (or has a fetch in flight) gets the
 			// time that needs -- bounded by the number of operations issued so far times the
 			// longest round trip -- before the tables are judged.
-			rtt := time.Duration(2*(c.N-1)*(sched.MaxDelay+1)+20) * time.Millisecond
+			rtt := time.Duration(2*(c.N-1)*(sched.MaxDelay+5)+20) * time.Millisecond
 			drain := 10*time.Second + time.Duration(res.ops)*rtt
 			for spent := time.Duration(0); spent < drain && (nw.inFlight() > 0 || nw.behind()); spent += 500 * time.Millisecond {
 				nw.runFor(500 * time.Millisecond)
